@@ -19,6 +19,10 @@ NextReset(i) == IF i > NRec THEN NRec + 1
                 ELSE IF Rec[i].op = "reset" THEN i ELSE NextReset(i + 1)
 
 BadEntry(i, props, why) == [i |-> i, props |-> props, why |-> why]
+\* the list of rejected events is part of the state: keep it short (the first rejections are what
+\* a replay needs; a change that breaks thousands of events must not blow up validation)
+MaxBad == 40
+AddBad(bad, entry) == IF Len(bad) < MaxBad THEN Append(bad, entry) ELSE bad
 
 WriteResult(bad, extra) ==
   JsonSerialize(IOEnv.RESULT, [n |-> NRec, bad |-> bad, extra |-> extra])
